@@ -34,6 +34,7 @@ def main():
     ap.add_argument("--also", default="")
     ap.add_argument("--skip-tests", action="store_true")
     a = ap.parse_args()
+    a.dir = os.path.abspath(a.dir)
     patch = os.path.join(a.dir, "patch.diff")
     demo = os.path.join(a.dir, "demo.py")
     scratch = tempfile.mkdtemp(prefix="d42seed_", dir="/tmp")
@@ -61,9 +62,14 @@ def main():
         out["demo_patched_rc"] = rc
         results = {}
         for pid in [a.pid] + [x for x in a.also.split(",") if x]:
+            tag = "seed%d" % os.getpid()
+            scratch_out = scratch + "_out"
             rc, o = sh([os.path.join(VERIF, "check"), pid, "--tier", a.tier],
-                       env=dict(env, D42_REPO=scratch, VERIF_SEED=os.environ.get("VERIF_SEED", "0")), cwd=VERIF,
-                       timeout=7200)
+                       env=dict(env, D42_REPO=scratch, VERIF_SEED=os.environ.get("VERIF_SEED", "0"),
+                                VERIF_WORK_TAG=tag, VERIF_EVIDENCE_DIR=scratch_out, VERIF_REPLAY_DIR=scratch_out),
+                       cwd=VERIF, timeout=7200)
+            shutil.rmtree(os.path.join(VERIF, ".work_" + tag), ignore_errors=True)
+            shutil.rmtree(scratch_out, ignore_errors=True)
             lines = [ln for ln in o.splitlines() if ln.startswith(("VIOLATION", "KNOWN-FINDING", "PASS", "FAIL",
                                                                    "MACHINERY", "NOTE"))]
             results[pid] = {"rc": rc, "detected": rc == 1 and any(ln.startswith("VIOLATION") for ln in lines),
@@ -72,8 +78,6 @@ def main():
     finally:
         sh(["git", "-C", "/repo", "worktree", "remove", "--force", scratch])
         shutil.rmtree(scratch, ignore_errors=True)
-        # evidence files are rewritten by the runs above against a patched tree: restore them
-        sh(["git", "-C", VERIF, "checkout", "--", "evidence"])
     print(json.dumps(out, indent=1))
     return 0
 
